@@ -91,7 +91,7 @@ SPEC = dict(
          "panic, +-inf, +-0); kind=bgnew/bgcnt/bgseq/fnew: Background::new / from_counts / from_sequence (slice, and a "
          "StripedSequence with padding cells and wrap rows) / from_sequences / FrequencyMatrix::new on accepting and "
          "rejecting inputs (one-ulp perturbations, values around the 0.01 tolerance, wildcard-only sequences with and "
-         "without `unknown`). corpus/C09: 37 fixed lines (one per ragged shape, per special base, subnormal rescale, "
+         "without `unknown`). corpus/C09: 35 fixed lines (one per ragged shape, per special base, subnormal rescale, "
          "striped backgrounds). All floats as u32 bit patterns. PROPFAIL: extracted checkers (counts = occurrences / Err on "
          "unequal lengths; frequency within 1e-5 of (count+pseudo)/total and rows summing to 1; weight*background within 1e-6 "
          "of the frequency, 0 where the background is 0; score within 1e-5 of log_base(weight) from the libm oracle, -inf "
@@ -123,8 +123,10 @@ SPEC = dict(
         "proved (C09_weight_f32_error, C09_rescale_f32_error: standard model with gradual underflow, hypotheses: finite "
         "operands, background entries > 0, no overflow of x = f/old, q = old/new, w = x*q), and so is the distance of a "
         "frequency row's real sum from one (C09_freq_rows_sum_to_one_f32: <= 1/(1-u)^K - 1 + K*eta <= 2^-19, for "
-        "nonnegative finite count+pseudocount cells with a finite positive total); for single frequency cells and for "
-        "scores (libm) it is not proved but checked on the observations with the stated tolerances",
+        "nonnegative finite count+pseudocount cells with a finite positive total) and of every frequency cell from "
+        "(count+pseudocount)/exact total (C09_freq_cell_f32: relative 1/(1-u)^(K+5) - 1 plus eta; "
+        "C09_freq_row_model_passes_check: the model passes check_freq_row with eps = 1e-5 for K <= 21, u32 counts, finite "
+        "nonnegative pseudocounts); only for scores (libm logarithms, oracle table) nothing is proved about the distance",
         "C09_*_model_passes_check additionally assume background entries <= 1 (guaranteed by Background::new / from_counts)",
         "freq_cell / freq_rows_sum_to_one exclude rows whose total count+pseudocount is 0 (0/0 = NaN in the code)",
         "window_between_min_max is proved for ordered commutative monoids (Qc and Qc + -inf) and, for binary32 "
